@@ -42,6 +42,12 @@ func show(args []string) {
 	for _, b := range c.Objects.BindRequests {
 		fmt.Printf("br %s node=%s groups=%v phase=%s\n", b.Name, b.Spec.SelectedNode, b.Spec.SelectedGPUGroups, b.Status.Phase)
 	}
+	for _, sl := range c.Objects.ResourceSlices {
+		fmt.Printf("slice %s node=%s devices=%d\n", sl.Name, *sl.Spec.NodeName, len(sl.Spec.Devices))
+	}
+	for _, cl := range c.Objects.ResourceClaims {
+		fmt.Printf("claim %s count=%d allocated=%v reservedFor=%d\n", cl.Name, cl.Spec.Devices.Requests[0].Exactly.Count, sched.DeviceIDs(cl.Status.Allocation), len(cl.Status.ReservedFor))
+	}
 	st := store.New()
 	if err := st.Add(c.Objects.All()...); err != nil {
 		fmt.Println("add:", err)
@@ -58,7 +64,7 @@ func show(args []string) {
 		cr := r.Cycle()
 		fmt.Printf("--- cycle %d dur=%v panic=%q openErr=%q\n", cr.Cycle, cr.Dur, cr.Panic, cr.OpenErr)
 		for _, e := range cr.Events {
-			fmt.Printf("  %s %s %s -> %s groups=%v err=%q evict=%s/%s\n", e.Action, e.Kind, e.Pod, e.Node, e.GPUGroups, e.Err, e.EvictAction, e.Preemptor)
+			fmt.Printf("  %s %s %s -> %s groups=%v err=%q evict=%s/%s claims=%v\n", e.Action, e.Kind, e.Pod, e.Node, e.GPUGroups, e.Err, e.EvictAction, e.Preemptor, e.Claims)
 		}
 		after := st.ReadAll()
 		for _, pg := range after.PodGroups {
